@@ -1,11 +1,14 @@
 import Pendulum.Proofs.C15
 import Pendulum.Gen.RsHelpers
 import Pendulum.Proofs.LocalTime
+import Pendulum.Proofs.LocalTimeGen
 /-! # C15 — calendar primitives agree with the proleptic Gregorian calendar, both backends
 
 Property theorems only. `Gen.*` are regenerated from `/repo/src/pendulum/_helpers.py`, `date.py`,
 `constants.py` and `rust/src/constants.rs` on every run; `Rs.*` is the hand model of
-`rust/src/helpers.rs`; `Cal.*` is the reference (the standard library's algorithms). -/
+`rust/src/helpers.rs`; `Cal.*` is the reference (the standard library's algorithms).
+`Gen.py_local_time` / `Gen.rs_local_time` are regenerated statement by statement from `_helpers.py::local_time` and
+`rust/src/helpers.rs::local_time` (tools/gen_localtime.py); `LocalTime.localTime` is the hand model they are tied to. -/
 namespace Pendulum.Props.C15
 open Pendulum Pendulum.Cal Pendulum.C15
 
@@ -193,6 +196,54 @@ theorem local_time_rs_eq_py (t off : Int) :
     LocalTime.localTime true LocalTime.rsTbl t off = LocalTime.localTime false LocalTime.pyTbl t off :=
   LocalTime.localTime_rs_eq t off
 
+/-! ### `local_time` as regenerated from the two sources -/
+
+/-- **source = model, both backends**: the definitions regenerated from `_helpers.py::local_time` and from
+    `rust/src/helpers.rs::local_time` (statement by statement, loops from their own bodies) equal the hand model for
+    ALL integer timestamps and offsets — no range hypothesis -/
+theorem local_time_source_eq_model :
+    (∀ t off : Int, Gen.py_local_time t off = LocalTime.localTime false LocalTime.pyTbl t off) ∧
+    (∀ t off : Int, Gen.rs_local_time t off = LocalTime.localTime true LocalTime.rsTbl t off) :=
+  ⟨LocalTimeGen.py_local_time_eq_model, LocalTimeGen.rs_local_time_eq_model⟩
+
+/-- the cut of the generated `while` loops (64) is immaterial: every cut from 40 on gives the same result, i.e. all four
+    loops of both sources are left through their own condition, for every input -/
+theorem local_time_source_cut_immaterial (F : Nat) (hF : 40 ≤ F) (t off : Int) :
+    Gen.py_local_time_fuel F t off = Gen.py_local_time t off ∧ Gen.rs_local_time_fuel F t off = Gen.rs_local_time t off :=
+  ⟨LocalTimeGen.py_local_time_fuel_indep F hF t off, LocalTimeGen.rs_local_time_fuel_indep F hF t off⟩
+
+/-- **`local_time_spec` about the regenerated Python code**: valid civil date with ordinal
+    `ordinal(1970-01-01) + ⌊(t+off)/86400⌋`, h:m:s = `(t+off) mod 86400`, every integer `t`, `off` -/
+theorem local_time_source_spec (t off : Int) :
+    let r := Gen.py_local_time t off
+    validDate r.1 r.2.1 r.2.2.1 ∧ ymd2ord r.1 r.2.1 r.2.2.1 = epochOrd + (t + off) / 86400 ∧
+    r.2.2.2.1 * 3600 + r.2.2.2.2.1 * 60 + r.2.2.2.2.2 = (t + off) % 86400 ∧
+    0 ≤ r.2.2.2.1 ∧ r.2.2.2.1 < 24 ∧ 0 ≤ r.2.2.2.2.1 ∧ r.2.2.2.2.1 < 60 ∧ 0 ≤ r.2.2.2.2.2 ∧ r.2.2.2.2.2 < 60 := by
+  rw [LocalTimeGen.py_local_time_eq_model]
+  exact LocalTime.localTime_py_spec t off
+
+/-- the same about the regenerated Rust code -/
+theorem local_time_source_rs_spec (t off : Int) :
+    let r := Gen.rs_local_time t off
+    validDate r.1 r.2.1 r.2.2.1 ∧ ymd2ord r.1 r.2.1 r.2.2.1 = epochOrd + (t + off) / 86400 ∧
+    r.2.2.2.1 * 3600 + r.2.2.2.2.1 * 60 + r.2.2.2.2.2 = (t + off) % 86400 ∧
+    0 ≤ r.2.2.2.1 ∧ r.2.2.2.1 < 24 ∧ 0 ≤ r.2.2.2.2.1 ∧ r.2.2.2.2.1 < 60 ∧ 0 ≤ r.2.2.2.2.2 ∧ r.2.2.2.2.2 < 60 := by
+  rw [LocalTimeGen.rs_local_time_eq_model, LocalTime.localTime_rs_eq]
+  exact LocalTime.localTime_py_spec t off
+
+/-- the civil date computed by the regenerated Python code is *the* date with that ordinal -/
+theorem local_time_source_date (t off : Int) :
+    let r := Gen.py_local_time t off
+    (r.1, r.2.1, r.2.2.1) = ord2ymd (epochOrd + (t + off) / 86400) := by
+  rw [LocalTimeGen.py_local_time_eq_model]
+  exact local_time_date t off
+
+/-- **`local_time_rs_eq_py` about the regenerated code**: the Rust source and the Python source compute the same
+    broken-down time for every integer timestamp and offset -/
+theorem local_time_source_rs_eq_py (t off : Int) : Gen.rs_local_time t off = Gen.py_local_time t off := by
+  rw [LocalTimeGen.rs_local_time_eq_model, LocalTimeGen.py_local_time_eq_model]
+  exact LocalTime.localTime_rs_eq t off
+
 /-! ### Date getters that are computed by pendulum itself -/
 
 /-- `week_of_month = ceil((day + first_of_month.isoweekday() - 1) / 7)` as integer arithmetic: the 1-based index of the
@@ -207,6 +258,10 @@ theorem quarter_spec (m : Int) (hm : 1 ≤ m ∧ m ≤ 12) : (m + 2) / 3 = (m - 
 /-! non-vacuity: the hypotheses are met by ordinary dates -/
 example : LocalTime.localTime false LocalTime.pyTbl 951782400 3600 = (2000, 2, 29, 1, 0, 0) := by decide +kernel
 example : LocalTime.localTime true LocalTime.rsTbl (-1) 0 = (1969, 12, 31, 23, 59, 59) := by decide +kernel
+example : Gen.py_local_time 951782400 3600 = (2000, 2, 29, 1, 0, 0) := by decide +kernel
+example : Gen.rs_local_time (-1) 0 = (1969, 12, 31, 23, 59, 59) := by decide +kernel
+example : Gen.rs_local_time (-62135596800) (-86399) = (0, 12, 31, 0, 0, 1) ∧ Gen.py_local_time 253402300799 86399 = (10000, 1, 1, 23, 59, 58) := by decide +kernel
+example : (40 : Nat) ≤ 40 ∧ Gen.py_local_time_fuel 40 1 0 = (1970, 1, 1, 0, 0, 1) := by decide +kernel
 example : (1 : Int) ≤ 2 ∧ (2 : Int) ≤ 12 := by omega
 example : Gen.week_day 2024 2 29 = 4 ∧ isoweekday 2024 2 29 = 4 := by decide
 example : Gen.is_long_year 2020 = true ∧ isoWeeksInYear 2020 = 53 := by decide
